@@ -2,7 +2,10 @@ mod char_counter;
 pub use self::char_counter::CharCounter;
 
 mod bigint;
-pub use self::bigint::BigInt;
+pub use self::bigint::{
+    BigInt,
+    BIGINT_MAX_BITS,
+};
 
 mod bitvec;
 pub use self::bitvec::{
